@@ -73,15 +73,25 @@ theorem concat_pure (vs : List (Option Val)) (r : Val) (hs : concatS vs = .ok r)
   by_cases hn : vs.any nullish = true
   · simp only [hn, if_true] at hs
     split at hs
-    · cases hs
-      have : (nulled vs).any isNull = true := by
+    · rename_i hall
+      cases hs
+      have h1 : (nulled vs).any isNull = true := by
         obtain ⟨o, ho, hnl⟩ := List.any_eq_true.mp hn
         apply List.any_eq_true.mpr
         refine ⟨o.getD .null, by simp only [nulled, List.mem_map]; exact ⟨o, ho, rfl⟩, ?_⟩
         cases o with
         | none => rfl
         | some x => cases x <;> simp [nullish] at hnl; rfl
-      simp [concatOp, this]
+      have h2 : (nulled vs).any (fun v => !isNull v && !isStr v) = false := by
+        apply List.any_eq_false.mpr
+        intro v hv
+        simp only [nulled, List.mem_map] at hv
+        obtain ⟨o, ho, rfl⟩ := hv
+        have := List.all_eq_true.mp hall o ho
+        cases o with
+        | none => simp [isNull]
+        | some x => cases x <;> simp [nullish] at this <;> simp [isNull, isStr]
+      simp [concatOp, h1, h2]
     · simp [unmodelled] at hs
   · have hn' : vs.any nullish = false := by simpa using hn
     simp only [hn', Bool.false_eq_true, if_false] at hs
@@ -93,40 +103,125 @@ theorem concat_pure (vs : List (Option Val)) (r : Val) (hs : concatS vs = .ok r)
       rw [strings_nulled vs ss ha]
       exact concat_strings ss
 
-theorem elemAt_pure (x y : Val) (hb : isBoolO (some y) = false) (r : Option Val)
-    (hnx : nullish (some x) = false) (hny : nullish (some y) = false)
-    (hs : elemAt (some x) (some y) = .ok r) : arrayElemAtOp x y = .ok r := by
+/-- `$arrayElemAt`: a null or missing operand gives null -/
+theorem elemAt_pure (a i : Option Val) (hb : isBoolO i = false) (r : Option Val)
+    (hs : elemAt a i = .ok r) : arrayElemAtOp (a.getD .null) (i.getD .null) = .ok r := by
   unfold elemAt at hs
-  simp only [hnx, hny, Bool.or_self, Bool.false_eq_true, if_false] at hs
-  cases x with
-  | arr xs =>
-    cases y with
-    | int n =>
-      simp only at hs
-      simp only [arrayElemAtOp, intLike, pyIndex]
-      split at hs
-      · rename_i h; simpa [h] using hs
-      · rename_i h
-        split at hs
-        · rename_i h'; simpa [h, h'] using hs
-        · rename_i h'; simpa [h, h'] using hs
-    | dbl m e => simp [unmodelled] at hs
-    | bool b => simp [isBoolO] at hb
-    | _ => simp at hs
-  | _ => simp at hs
+  by_cases hn : (nullish a || nullish i) = true
+  · simp only [hn, if_true] at hs
+    simp [arrayElemAtOp, isNull_getD, hn, hs]
+  · have hn' : (nullish a || nullish i) = false := by simpa using hn
+    simp only [hn', Bool.false_eq_true, if_false] at hs
+    have hn2 : (isNull (a.getD .null) || isNull (i.getD .null)) = false := by
+      simpa [isNull_getD] using hn'
+    simp only [arrayElemAtOp, hn2, Bool.false_eq_true, if_false]
+    simp only [Bool.or_eq_false_iff] at hn'
+    cases a with
+    | none => simp [nullish] at hn'
+    | some x =>
+      cases i with
+      | none => simp [nullish] at hn'
+      | some y =>
+        simp only [Option.getD_some]
+        cases x with
+        | arr xs =>
+          cases y with
+          | int n =>
+            simp only at hs
+            simp only [intLike, pyIndex]
+            split at hs
+            · rename_i h; simpa [h] using hs
+            · rename_i h
+              split at hs
+              · rename_i h'; simpa [h, h'] using hs
+              · rename_i h'; simpa [h, h'] using hs
+          | dbl m e => simp [unmodelled] at hs
+          | bool b => simp [isBoolO] at hb
+          | _ => simp at hs
+        | _ => simp at hs
 
 theorem datePart_pure (k : String) (hk : datePartOps.contains k = true) (v : Val) (r : Val)
-    (hn : nullish (some v) = false) (hs : datePartS k (some v) = .ok r) : dateOp k v = .ok r := by
+    (hs : datePartS k (some v) = .ok r) : dateOp k v = .ok r := by
   unfold datePartS at hs
-  simp only [hn, Bool.false_eq_true, if_false] at hs
+  have hk' : k ∈ datePartOps := by simpa using hk
   cases v with
+  | null => simpa [nullish, dateOp, hk'] using hs
   | date u o =>
+    simp only [nullish, Bool.false_eq_true, if_false] at hs
     cases o with
-    | none =>
-      have hk' : k ∈ datePartOps := by simpa using hk
-      simpa [dateOp, hk'] using hs
+    | none => simpa [dateOp, hk'] using hs
     | some off => simp [unmodelled] at hs
-  | _ => simp at hs
+  | _ => simp [nullish] at hs
+
+/-! ### `$strcasecmp`, `$toLower`, `$toUpper`, `$toString` -/
+
+theorem cmp3 (x y : String) :
+    (if x = y then (0 : Int) else if x < y then -1 else 1) =
+      (match compare x y with | .lt => -1 | .eq => 0 | .gt => 1) := by
+  have hc : compare x y = compareOfLessAndEq x y := rfl
+  rw [hc]
+  by_cases hxy : x = y
+  · subst hxy
+    simp [compareOfLessAndEq, String.lt_irrefl]
+  · by_cases hlt : x < y <;> simp [compareOfLessAndEq, hxy, hlt]
+
+/-- one operand of `$strcasecmp` as the rules read it -/
+def upperS (v : Option Val) : R String :=
+  if nullish v then .ok "" else match v with | some (.str s) => asciiUpper s | _ => unmodelled
+
+theorem strcasecmpS_eq (a b : Option Val) :
+    strcasecmpS a b = (upperS a).bind (fun x => (upperS b).bind (fun y =>
+      .ok (.int (match compare x y with | .lt => -1 | .eq => 0 | .gt => 1)))) := rfl
+
+theorem upperArg_pure (a : Option Val) (x : String) (h : upperS a = .ok x) :
+    upperArg (a.getD .null) = .ok x := by
+  unfold upperS at h
+  cases a with
+  | none => simpa [nullish, upperArg] using h
+  | some v =>
+    cases v <;> simp [nullish, unmodelled] at h <;>
+      simp [upperArg, pyStr, h, bind, Except.bind]
+
+theorem strcasecmp_pure (a b : Option Val) (r : Val) (hs : strcasecmpS a b = .ok r) :
+    strcasecmpOp (a.getD .null) (b.getD .null) = .ok r := by
+  rw [strcasecmpS_eq] at hs
+  cases hx : upperS a with
+  | error e => simp [hx, Except.bind] at hs
+  | ok x =>
+    cases hy : upperS b with
+    | error e => simp [hx, hy, Except.bind] at hs
+    | ok y =>
+      simp only [hx, hy, Except.bind] at hs
+      simp only [strcasecmpOp, upperArg_pure a x hx, upperArg_pure b y hy, bind, Except.bind, pure,
+        Except.pure, cmp3]
+      exact hs
+
+/-- `$toLower` / `$toUpper` on the outcome of the parse (`none` = missing) -/
+theorem case_pure (upper : Bool) (a : Option Val) (r : Val) (hs : caseS upper a = .ok r) :
+    (match a with
+     | none => (.ok (.str "") : R Val)
+     | some v => caseOp upper v) = .ok r := by
+  unfold caseS at hs
+  cases a with
+  | none => simpa [nullish] using hs
+  | some v =>
+    cases v <;> simp [nullish, unmodelled] at hs <;>
+      simp [caseOp, pyStr, hs, bind, Except.bind]
+    cases upper <;> simp only [Bool.false_eq_true, if_false, if_true] at hs ⊢
+    · cases h : asciiLower _ <;> simp_all [Functor.map, Except.map, bind, Except.bind, pure, Except.pure]
+    · cases h : asciiUpper _ <;> simp_all [Functor.map, Except.map, bind, Except.bind, pure, Except.pure]
+
+/-- `$toString` on the outcome of the parse -/
+theorem toString_pure (a : Option Val) (r : Val) (hs : toStringS a = .ok r) :
+    (match a with
+     | none => (.ok .null : R Val)
+     | some v => toStringOp v) = .ok r := by
+  unfold toStringS at hs
+  cases a with
+  | none => simpa [nullish] using hs
+  | some v =>
+    cases v <;> simp [nullish, unmodelled] at hs <;>
+      simp [toStringOp, pyStr, hs, bind, Except.bind, pure, Except.pure]
 
 /-! ### how `eval` runs the handlers -/
 
@@ -144,7 +239,7 @@ theorem eval_list (c : Ctx) (k : String) (xs : List Val) (cls : OpClass) (hc : c
     (hm : mode k (.arr xs) = .shaped) (har : arityErr k xs.length = none)
     (hl : listOps.contains k = true) :
     eval c (.doc [(k, .arr xs)]) =
-      (evalList c (usesParseMany k && c.ign) xs).bind (fun r =>
+      (evalList c (nullOnMissing c.ign k) xs).bind (fun r =>
         match r with
         | none => if k = "$split" then .ok (some .null) else .ok none
         | some vals => applyList k vals) := by
